@@ -415,7 +415,13 @@ func oracleC15(cx *CheckCtx, runs []*CaseRun) []Finding {
 		for _, h := range headers {
 			first := strings.TrimSpace(strings.Split(strings.TrimSpace(h), "\n")[0])
 			if first != "" && strings.Contains(rawDoc, first) && !containsAny(pkgc, first) {
-				fs = append(fs, Finding{Property: "C15", Shape: "header-in-package-doc", What: fmt.Sprintf("header comment %q became part of the package doc", first), Case: cr.Case.Text(), Observed: trunc(out)})
+				shape := "header-in-package-doc"
+				if strings.Contains(h, "\f") && !strings.Contains(h, "\n") {
+					// go/printer counts a form feed inside a comment as a line break when it tracks
+					// positions, so the blank line jennifer writes after the header is dropped
+					shape = "header-with-formfeed-in-package-doc"
+				}
+				fs = append(fs, Finding{Property: "C15", Shape: shape, What: fmt.Sprintf("header comment %q became part of the package doc", first), Case: cr.Case.Text(), Observed: trunc(out)})
 			}
 		}
 		for _, p := range pkgc {
